@@ -204,7 +204,6 @@ def _specs(**kw):
 
 
 S_ANY = _specs(dtypes=ALL_DTYPES, max_nt=3, max_comp=3)
-S_FLOAT = _specs(dtypes=FLOATS, max_nt=3, max_comp=3)
 S_SERIES = _specs(dtypes=ALL_DTYPES, series=(True,), max_nt=4, max_comp=3)
 S_SCALAR = _specs(dtypes=ALL_DTYPES, payloads=("scalar",), max_nt=3)
 S_23 = _specs(dims=(2, 3), dtypes=("float64", "float32", "uint8"), max_nt=3, max_comp=3, min_extent=2)
@@ -212,7 +211,6 @@ S_2D = _specs(dims=(2,), dtypes=CVTYPES, max_nt=3, max_comp=3, min_extent=2)
 S_2D_PLAIN = _specs(dims=(2,), dtypes=CVTYPES, payloads=("scalar", "vector"), series=(False,),
                     min_extent=4, max_extent={2: 10})
 S_2D_SCALAR = _specs(dims=(2,), dtypes=FLOATS, payloads=("scalar",), series=(False,), min_extent=2)
-S_2D_SCALAR_T = _specs(dims=(2,), dtypes=FLOATS, payloads=("scalar",), max_nt=3, min_extent=2)
 
 
 @st.composite
@@ -421,7 +419,9 @@ SCALARS = {
     "np.int32": lambda v: np.int32(int(v)),
 }
 G_PAIR = fd(a=S_ANY, bd=st.sampled_from(ALL_DTYPES), same=st.booleans())
-G_SCAL = fd(a=S_ANY, v=st.sampled_from([0.0, 1.0, 2.0, 3.0, -1.0, 0.5, 2.5, -1.5]))
+S_MOSTLY_FLOAT = _specs(dtypes=("float64", "float32") * 3 + ("uint8", "uint16", "bool"),
+                        max_nt=3, max_comp=3)
+G_SCAL = fd(a=S_MOSTLY_FLOAT, v=st.sampled_from([0.0, 1.0, 2.0, 3.0, -1.0, 0.5, 2.5, -1.5]))
 
 
 def _pair(p):
@@ -463,7 +463,8 @@ def _scalar_form(stype, right, op=None):
 
 
 for _t in SCALARS:
-    F(f"mul:{_t}", "arithmetic", G_SCAL, _scalar_form(_t, False), weight=3 if _t in ("float", "int") else 2)
+    F(f"mul:{_t}", "arithmetic", G_SCAL, _scalar_form(_t, False),
+      weight={"float": 3, "int": 3, "np.float64": 2}.get(_t, 1))
 F("rmul:float", "arithmetic", G_SCAL, _scalar_form("float", True), weight=3)
 F("rmul:int", "arithmetic", G_SCAL, _scalar_form("int", True), weight=3)
 for _n, _op in CMP.items():
@@ -752,8 +753,7 @@ def _weight_image(different):
 
 
 G_WIMG = fd(a=_specs(dims=(1, 2, 2, 2, 2, 3), dtypes=FLOATS + ("uint8",),
-                     payloads=("scalar", "scalar", "scalar", "vector"),
-                     series=(False, False, False, True), max_nt=3),
+                     payloads=("scalar",) * 7 + ("vector",), series=(False,) * 7 + (True,), max_nt=3),
             wd=st.sampled_from(FLOATS), wshape=st.lists(st.integers(0, 11), min_size=3, max_size=3))
 F("weight:image-same-resolution", "composition", G_WIMG, _weight_image(False))
 F("weight:image-other-resolution", "composition", G_WIMG, _weight_image(True))
@@ -1021,6 +1021,26 @@ F("StaticThresholdModel:homogeneous", "models", G_LAB, _static_hom)
 F("StaticThresholdModel:heterogeneous", "models", G_LAB, _static_het)
 
 
+class _NumpyGaussian(darsia.BaseKernel):
+    """User-defined kernel on the documented BaseKernel interface (numpy linear_combination).
+    The numba-parallel kernels shipped with darsia cannot run in the forked workers: the parent's
+    `import darsia` already started numba's OpenMP pool, which terminates any forked child."""
+
+    def __init__(self, gamma):
+        self.gamma = np.float32(gamma)
+
+    def __call__(self, x, y):
+        return np.exp(-self.gamma * np.sum(np.multiply(x - y, x - y), axis=-1))
+
+
+class _NumpyLinear(darsia.BaseKernel):
+    def __init__(self, a):
+        self.a = a
+
+    def __call__(self, x, y):
+        return np.sum(np.multiply(x, y), axis=-1) + self.a
+
+
 def _kernel(p):
     rng = np.random.default_rng(p["pseed"])
     shape = {1: (p["n"], 3), 2: (p["n"], p["m"], 3)}[p["nd"]]
@@ -1028,7 +1048,7 @@ def _kernel(p):
     k = p["k"]
     supports = np.array([[0.1, 0.2, 0.9], [0.8, 0.1, 0.3], [0.4, 0.9, 0.5], [0.9, 0.9, 0.1]][:k])
     values = np.array([0.0, 1.0, 0.5, 0.25][:k])
-    kernel = darsia.GaussianKernel(gamma=p["g"]) if p["gauss"] else darsia.LinearKernel(a=1.0)
+    kernel = _NumpyGaussian(p["g"]) if p["gauss"] else _NumpyLinear(1.0)
     m = darsia.KernelInterpolation(kernel, supports, values)
     return Call({"signal": sig, "supports": supports, "values": values}, lambda: m(sig), REJ_T)
 
@@ -1118,8 +1138,8 @@ def _normalize(p):
 
 
 F("Geometry.normalize", "measures",
-  fd(a=_specs(dtypes=FLOATS, payloads=("scalar",), max_nt=3), weighted=st.booleans(),
-     coarse=st.just([1, 1, 1]), ratio=st.booleans()), _normalize)
+  fd(a=_specs(dtypes=("float64", "float64", "float64", "float32"), payloads=("scalar",), max_nt=3),
+     weighted=st.booleans(), coarse=st.just([1, 1, 1]), ratio=st.booleans()), _normalize)
 
 G_EMD = fd(a=_specs(dims=(2,), dtypes=FLOATS, payloads=("scalar",), max_nt=2, min_extent=2,
                     max_extent={2: 6}, vox_kinds=("pow2", "unit")),
@@ -1205,8 +1225,9 @@ CHAIN_OPS = {
     "sub": (2, _same, lambda x, y, k: x - y, REJ_T),
     "mul:float": (1, _flt, lambda x, k: x * (0.5 + k), REJ_T),
     "rmul:float": (1, _flt, lambda x, k: (0.5 + k) * x, REJ_T),
-    "cmp:lt:image": (2, _same, lambda x, y, k: x < y, REJ_T),
-    "cmp:ge:scalar": (1, lambda x: True, lambda x, k: x >= 0.5, REJ_T),
+    # comparisons / "voxels" mode cannot hold a series (crash reported by arithmetic_agrees)
+    "cmp:lt:image": (2, lambda x, y: _same(x, y) and not x.series, lambda x, y, k: x < y, REJ_T),
+    "cmp:ge:scalar": (1, lambda x: not x.series, lambda x, k: x >= 0.5, REJ_T),
     "copy": (1, lambda x: True, lambda x, k: x.copy(), REJ),
     "astype:float32": (1, lambda x: True, lambda x, k: x.astype(np.float32), REJ),
     "astype:Image": (1, lambda x: True, lambda x, k: x.astype(darsia.Image), REJ),
@@ -1217,7 +1238,7 @@ CHAIN_OPS = {
                          lambda x, k: x.subregion(tuple(slice(k % 2, n) for n in x.num_voxels)), REJ),
     "reset_origin(return_image=True)": (1, lambda x: True, lambda x, k: x.reset_origin(return_image=True), REJ),
     "zeros_like:shape": (1, lambda x: True, lambda x, k: darsia.zeros_like(x), REJ),
-    "ones_like:voxels": (1, lambda x: True, lambda x, k: darsia.ones_like(x, mode="voxels"), REJ),
+    "ones_like:voxels": (1, lambda x: not x.series, lambda x, k: darsia.ones_like(x, mode="voxels"), REJ),
     "weight:float": (1, _flt, lambda x, k: darsia.weight(x, 1.5 + k), REJ_T),
     "weight:image": (2, lambda x, y: x.space_dim == y.space_dim and y.scalar and not y.series
                      and x.scalar and not x.series and _flt(x)
@@ -1405,16 +1426,6 @@ def check_arith(case):
         if d is not None:
             raise Violation(f"{nm}:metadata", f"result metadata differs from the left operand: {d[1]}", tags)
         n += 1
-    # --- comparisons
-    for nm, op in CMP.items():
-        for rhs_img, rhs_np, what in ((b, b0, "image"), (case["v"], case["v"], "float"),
-                                      (int(case["v"]), int(case["v"]), "int")):
-            r = op(a, rhs_img)
-            want = op(a0, rhs_np)
-            _expect_equal(f"cmp:{nm}", r.img, want, tags, f"a {nm} {what}")
-            if r.img.shape != tuple(a.img.shape):
-                raise Violation(f"cmp:{nm}:shape", "comparison result has another shape", tags)
-            n += 1
     # --- scaling by every documented scalar type
     stype = case["st"]
     v = case["v"] if stype in ("float", "np.float64", "np.float32") else float(int(case["v"]))
@@ -1446,6 +1457,23 @@ def check_arith(case):
         if d is not None:
             raise Violation(f"{nm}:metadata", f"result metadata differs from the operand: {d[1]}", tags)
         n += 1
+    # --- comparisons
+    for nm, op in CMP.items():
+        for rhs_img, rhs_np, what in ((b, b0, "image"), (case["v"], case["v"], "float"),
+                                      (int(case["v"]), int(case["v"]), "int")):
+            try:
+                r = op(a, rhs_img)
+            except IndexError as e:
+                if not sp["series"]:
+                    raise
+                raise Violation("cmp:series-crash", f"a {nm} {what} on a time series raises IndexError ({e}): "
+                                "the result container is built with zeros_like(mode='voxels'), which passes "
+                                "series=True metadata along with a purely spatial array", tags)
+            want = op(a0, rhs_np)
+            _expect_equal(f"cmp:{nm}", r.img, want, tags, f"a {nm} {what}")
+            if r.img.shape != tuple(a.img.shape):
+                raise Violation(f"cmp:{nm}:shape", "comparison result has another shape", tags)
+            n += 1
     if not np.array_equal(a.img, a0) or not np.array_equal(b.img, b0):
         raise Violation("operand-changed", "arithmetic changed an operand array", tags)
     nontrivial = (not case["same"] and str(b0.dtype) != str(a0.dtype)) or sp["series"] or sp["payload"] == "vector" \
@@ -1470,11 +1498,12 @@ _RULE = ("registry: one case = (call form, Hypothesis-drawn operands of every im
 
 
 def _reg_subs():
-    n = {"arithmetic": (9000, 270000), "conversion": (14000, 420000), "extraction": (3000, 90000),
-         "constructors": (1500, 45000), "composition": (2700, 80000), "resize": (3300, 100000),
-         "models": (2400, 72000), "measures": (1200, 36000)}
+    # quick: ~300 cases per call form; thorough x20
+    n = {"arithmetic": (8000, 160000), "conversion": (14000, 280000), "extraction": (3000, 60000),
+         "constructors": (1500, 30000), "composition": (2700, 54000), "resize": (3300, 66000),
+         "models": (4000, 80000), "measures": (1800, 36000)}
     sh = {"arithmetic": 2, "conversion": 3, "extraction": 1, "constructors": 1, "composition": 1,
-          "resize": 1, "models": 2, "measures": 2}
+          "resize": 1, "models": 3, "measures": 2}
     out = []
     for g in GROUPS:
         out.append(Sub(f"registry_{g}", check_registry, gen=group_gen(g),
@@ -1500,9 +1529,9 @@ PROP = Prop(
         "implementation scales a copy in place)",
     ],
     subs=_reg_subs() + [
-        Sub("chains", check_chains, gen=gen_chains, n={"quick": 3000, "thorough": 90000},
+        Sub("chains", check_chains, gen=gen_chains, n={"quick": 3000, "thorough": 60000},
             shards={"quick": 2, "thorough": 16}),
-        Sub("arithmetic_agrees", check_arith, gen=gen_arith, n={"quick": 2000, "thorough": 60000},
+        Sub("arithmetic_agrees", check_arith, gen=gen_arith, n={"quick": 2000, "thorough": 40000},
             shards={"quick": 1, "thorough": 16}),
     ],
 )
